@@ -19,7 +19,7 @@ T1_MODULES = {
     "C10": ["vt.contracts.path_convert", "vt.contracts.traversal"],
     "C14": ["vt.contracts.reusable_policy", "vt.contracts.diskdict_effects"],
     "C18": ["vt.contracts.legs_rules", "vt.contracts.processor_legs", "vt.contracts.core_legs", "vt.contracts.hypergraph_ops"],
-    "C19": ["vt.contracts.exponent"],
+    "C19": ["vt.contracts.exponent", "vt.contracts.contractor_protocol"],
     "C20": ["vt.contracts.compressed_tracker", "vt.contracts.hypergraph_ops"],
 }
 
